@@ -423,7 +423,18 @@ def st_program(draw, cfg, universe=None, leaves=None):
                 if steer and _unsliced_sort(p):
                     continue
                 cands.append(p)
-            if cands:
+            nested = main[0] in ("dedup", "chain") or (main[0] == "slice" and (main[2] > 0 or main[3] is not None))
+            if eng == 0 and cols and nested and all(t.is_key for t in cols) and draw(st.integers(0, 2)) == 0:
+                # diamond: both operands are built on the *same* relation object, which the SQL engine has to render as
+                # a sub-query (sliced / deduplicated / compound), so that it appears twice in one FROM clause
+                free = [t for t in universe if t not in cols]
+                kinds_a = ["sel"]
+                kinds_b = ["sel", "proj"] + (["calc"] if free else [])
+                left = draw(st_unary_node(main, cols, universe, kinds_a, cfg))
+                right = draw(st_unary_node(main, cols, universe, (draw(st.sampled_from(kinds_b)),), cfg))
+                if left is not None and right is not None and all(t.is_key for t in schema(left, leaves) & schema(right, leaves)):
+                    node = ("join", left, right, None)
+            elif cands:
                 other = draw(st.sampled_from(cands))
                 allc = cols | schema(other, leaves)
                 pred = None
